@@ -707,7 +707,24 @@ _process_request_(struct qb_ipcs_connection *c, int32_t ms_timeout)
 		}
 		res = size;
 		goto cleanup;
-	} else if (size == 0 || hdr->id == QB_IPC_MSG_DISCONNECT) {
+	} else if (size == 0) {
+		qb_util_log(LOG_DEBUG, "client requesting a disconnect (%s)",
+			    c->description);
+		res = -ESHUTDOWN;
+		goto cleanup;
+	} else if (size < (ssize_t)sizeof(struct qb_ipc_request_header) ||
+		   (size_t)size > c->request.max_msg_size ||
+		   hdr->size < 0 || hdr->size > size) {
+		/*
+		 * The header does not describe what was received: never
+		 * hand the peer's idea of the length to the application.
+		 */
+		qb_util_log(LOG_ERR,
+			    "malformed request (%zd bytes received) from client connection (%s)",
+			    size, c->description);
+		res = -EINVAL;
+		goto cleanup;
+	} else if (hdr->id == QB_IPC_MSG_DISCONNECT) {
 		qb_util_log(LOG_DEBUG, "client requesting a disconnect (%s)",
 			    c->description);
 		res = -ESHUTDOWN;
